@@ -5,6 +5,34 @@ HERE = os.path.dirname(os.path.dirname(os.path.abspath(__file__)))
 PY = "/venv/bin/python"
 
 CHECKS = {
+ "C03": dict(level="exploration", design="§4 C03, §3 world A", quick_t=600, thorough_t=3600,
+   text="Seeded end-to-end gen_coords runs under RNG control and injected placement/optimiser faults; the written .gro is compared with the generator's ground truth (atom count, order, residue numbers/names, atom names, finite coordinates, box precedence and density box). Sampling of generated topologies/option sets/fault tapes, not proof.",
+   note="Trusted: numpy/scipy/networkx/vermouth; the workload generator's bounds (<= 3 molecule types, <= 12 molecules, <= 10 residues each). -split and -lig are not generated.",
+   technique="deterministic simulation with fault injection: seeded RNG + decision tape on placement/optimiser seams, output vs ground truth"),
+ "C04": dict(level="exploration", design="§4 C04, §3 world A", quick_t=600, thorough_t=3600,
+   text="Two-stage seeded runs (earlier build re-supplied as -c/-mc, cut, -res, -ign) with forced failed attempts; history + final-state oracle that supplied coordinates are never altered, discarded or rebuilt and ignored molecules never take part.",
+   note="Trusted as for C03. Ignored molecules are always fully supplied in the input (otherwise gen_coords cannot write them).",
+   technique="deterministic simulation with fault injection: forced failed placement attempts on partially supplied systems, history invariants"),
+ "C05": dict(level="exploration", design="§4 C05, §3 world A", quick_t=600, thorough_t=3600,
+   text="Invariants evaluated on every position handed to the neighbour engine during seeded builds (box, start grid, minimum-image step length, 0.1 nm floor, force limit recomputed by a brute-force minimum-image reference model).",
+   note="Trusted as for C03. Where twice the step length reaches the smallest box edge the step clause is weakened to 'some periodic image has the step length'.",
+   technique="deterministic simulation: per-event invariants against a reference model under seeded schedules and forced rejections"),
+ "C06": dict(level="exploration", design="§4 C06, §3 world A", quick_t=600, thorough_t=3600,
+   text="Final-state check of every backmapped residue (centre, proper-rotation Kabsch fit of the scaled template, congruence, file agreement) in seeded builds where the orientation optimiser's result is replaced by arbitrary angle triples from the decision tape.",
+   note="Trusted as for C03; templates are read from the captured topology (their own correctness is C15).",
+   technique="deterministic simulation with fault injection on the orientation optimiser result"),
+ "C07": dict(level="exploration", design="§4 C07, §3 world A", quick_t=900, thorough_t=3600,
+   text="Final-state check of generated build-file restraints (geometric in/out, growth direction, distance restraints, cycles, persistence-length sampling) with independent predicates, under seeded RNG (incl. the OS-entropy re-seed) and forced step failures so that restraint bookkeeping has to survive rewinds and retries.",
+   note="Trusted as for C03; restraint geometries are generated to be satisfiable; runs that hit the step cap are counted, not judged.",
+   technique="deterministic simulation with fault injection: seeded RNG + forced rejections, restraint predicates on final state"),
+ "C15": dict(level="exploration", design="§4 C15, §3 world A", quick_t=600, thorough_t=3600,
+   text="Template generation under seeded RNG and forced optimiser failures (retry loop and fall-through); oracle on the captured topology (grouping, key sets, centring, virtual sites, tolerances, user templates/volumes, positive sizes).",
+   note="Trusted as for C03. Only virtual_sitesn(1), virtual_sites2, virtual_sites3(1) are generated; atom names unique per residue.",
+   technique="deterministic simulation with fault injection on the geometry optimiser verdict"),
+ "C17": dict(level="fault_enumeration", design="§4 C17, §3 world A", quick_t=900, thorough_t=7200,
+   text="All success/failure tapes of length L for placement steps (quick 2^8, thorough 2^12 per system) and of length 6 for whole attempts are enumerated on fixed small systems, plus sampled long bursty tapes; rollback/ordering invariants are checked at every event against a reference model.",
+   note="Exhaustive over tapes up to the stated length for the chosen systems only; systems are sampled. Trusted as for C03.",
+   technique="deterministic simulation with enumerated fault schedules (scripted step/attempt outcomes) and history invariants"),
  "C16": dict(level="exploration", design="§4 C16, §3 world B", quick_t=300, thorough_t=3600,
    text="Seeded operation histories on the real NonBondEngine, compared operation by operation with a brute-force "
         "reference model (positions dict + minimum-image 12-6 arithmetic) plus a white-box cross-check of the four internal views; "
